@@ -81,13 +81,15 @@ def run_diff_mutator(progs, job):
     for x in oa:
         for y in ob:
             pc = x['pc'] + y['pc']
-            tq = time.time(); r = sv.check(*pc); res['solver_time'] += time.time() - tq
+            tq = time.time(); r = ctxa.eng.check(list(pc)); res['solver_time'] += time.time() - tq
             if r != z3.sat: continue
             res['obligations'] += 1
             eq = equal_cases(x['case'], y['case'], data)
-            tq = time.time(); r = sv.check(*(pc + [z3.Not(eq)])); res['solver_time'] += time.time() - tq
+            tq = time.time(); r = ctxa.eng.check(pc + [z3.Not(eq)]); res['solver_time'] += time.time() - tq
             res['assert_queries'] += 1
-            if r == z3.unsat: res['discharged'] += 1; res['nontrivial'] += 1 if x['kind'] in ('ok', 'result') else 0
+            if r == z3.unsat:
+                res['discharged'] += 1; res['nontrivial'] += 1 if x['kind'] in ('ok', 'result') else 0
+                if res.get('export_smt2', 0) > len(res['smt2']): res['smt2'].append(harness.export_smt2(sv, pc + [z3.Not(eq)], 'unsat'))
             elif r == z3.unknown: res['unknown'] = 'assertion query unknown'
             else:
                 m = sv.model()
@@ -128,7 +130,7 @@ def run_diff_iter(progs, job):
     for x in oa:
         for y in ob:
             pc = x['pc'] + y['pc']
-            if sv.check(*pc) != z3.sat: continue
+            if ica.eng.check(list(pc)) != z3.sat: continue
             res['obligations'] += 1
             if x['fin'] != y['fin'] or len(x['seq']) != len(y['seq']): eq = F_
             else:
@@ -136,7 +138,7 @@ def run_diff_iter(progs, job):
                 for ea, eb in zip(x['seq'], y['seq']):
                     fs += [p == q for p, q in zip(ea, eb)]
                 eq = z3.And(*fs) if fs else T_
-            r = sv.check(*(pc + [z3.Not(eq)])); res['assert_queries'] += 1
+            r = ica.eng.check(pc + [z3.Not(eq)]); res['assert_queries'] += 1
             if r == z3.unsat: res['discharged'] += 1; res['nontrivial'] += 1 if len(x['seq']) >= 2 else 0
             elif r == z3.unknown: res['unknown'] = 'assertion query unknown'
             else:
